@@ -105,8 +105,14 @@ func Gen(r *vh.Rand, o GenOpts) Session {
 		note += "badver "
 	}
 	offer := methodOffers[r.Intn(len(methodOffers))]
-	if o.AuthHeavy && r.Chance(1, 2) {
-		offer = methodOffers[1+r.Intn(3)]
+	if r.Chance(4, 5) {
+		// an offer the server can accept
+		switch {
+		case o.NoAuth:
+			offer = [][]byte{{0}, {0}, {0, 2}, {2, 0}, {0, 0, 0}, {0, 1, 2, 3, 4, 5, 6, 7}}[r.Intn(6)]
+		case o.AuthHeavy:
+			offer = [][]byte{{2}, {2}, {0, 2}, {2, 0}, {1, 2}, {2, 2}, {3, 0x80, 2}}[r.Intn(7)]
+		}
 	}
 	in = append(in, ver, byte(len(offer)))
 	in = append(in, offer...)
